@@ -206,6 +206,26 @@ pub fn unescape_debug(s: &str) -> Option<String> {
 }
 
 impl BuilderArea {
+    /// the tree's reference count is the number of handles that exist: the one the harness keeps per tree, two per
+    /// registered element (list + index), nothing else once an operation has returned (whatever the operation handed out
+    /// and was dropped again must have been counted up and down)
+    pub fn count_oracle(&mut self, cx: &mut Ctx<'_>) {
+        for (t, tr) in self.red.trees.iter().enumerate() {
+            let mut want = 1u32;
+            for (tt, _) in &self.red.elems {
+                if *tt == t {
+                    want += 2;
+                }
+            }
+            // lazy text views keep a handle of their node
+            want += self.views.iter().filter(|v| v.tree == t).count() as u32;
+            let got = tr.root.syntax().verif_ref_count();
+            if got != want {
+                cx.fail("C06", format!("tree {}: {} handles exist but the tree's reference count is {}", t, want, got));
+            }
+        }
+    }
+
     fn show_el(&mut self, t: usize, e: &El, expect: Option<usize>, cx: &mut Ctx<'_>, what: &str) -> String {
         let key = (t, e.clone());
         let id = match self.red.ids.get(&key) {
